@@ -2184,6 +2184,12 @@ mut("ok-twin-C03-7-counted-borrowed-clone", "benign", [], "WeakSnapshot::counted
     "through Weak::clone, which keeps the from-zero token (first half of the PAIR seed S-C03-7; increment_weak split into "
     "add_weak_refs + token)", [{"patch": "selftest/twins/C03-7-counted-borrowed-clone.diff"}])
 
+mut("ok-pair-C18-7-iter-exhausts", "benign", [], "the list iterator is exhausted after Stalled instead of restarting; try_advance gives up at a "
+    "stall anyway (first half of the PAIR seed S-C18-7: rely/guarantee between EBR-LIST and EBR-ADVANCE)",
+    [{"patch": "selftest/twins/C18-7-iter-exhausts.diff"}])
+mut("ok-pair-C18-7-advance-continues", "benign", [], "try_advance goes on after a stall; the iterator restarts from the head, so the traversal "
+    "that ends normally is complete (second half of S-C18-7)", [{"patch": "selftest/twins/C18-7-advance-continues.diff"}])
+
 # behaviour-preserving refactorings written by sub-agents told to keep every interleaving's behaviour (selftest/refactors/)
 for f in sorted(glob.glob(os.path.join(HERE, "refactors", "*.diff"))):
     name = os.path.basename(f)[:-5]
